@@ -34,6 +34,7 @@ type engineAbort struct {
 func (e engineAbort) Error() string { return e.kind.String() + ": " + e.msg }
 
 type decision struct {
+	Implied bool   // branch whose outcome the path condition already implies (no alternative)
 	Choice  bool   // free n-way choice (scheduler, select), Val = index
 	Pick    bool   // concretisation pick (else boolean branch)
 	Val     uint64 // candidate value of a pick
@@ -95,6 +96,7 @@ type pathState struct {
 	alts      [][]decision // alternatives discovered on this path
 	funcs     map[string]int64
 	wantModel bool
+	decided   map[*term]bool // conditions already implied by / added to the path condition
 }
 
 type observeRec struct {
@@ -150,22 +152,35 @@ func (i *interpreter) decide(c *term) bool {
 	}
 	ps := i.ps
 	tt := ps.tt
+	if v, ok := ps.decided[c]; ok {
+		return v
+	}
 	if ps.depth < len(ps.prefix) {
 		d := ps.prefix[ps.depth]
-		if d.Pick {
+		if d.Pick || d.Choice {
 			i.abort(abortNondet, "expected a branch decision, prefix has a pick at depth %d", ps.depth)
 		}
 		ps.depth++
-		ps.decisions = append(ps.decisions, decision{Taken: d.Taken, Checked: true})
+		ps.decisions = append(ps.decisions, decision{Taken: d.Taken, Checked: true, Implied: d.Implied})
+		if d.Implied {
+			ps.decided[c] = d.Taken
+			ps.decided[tt.not(c)] = !d.Taken
+			return d.Taken
+		}
 		if d.Taken {
 			i.addPC(c)
 		} else {
 			i.addPC(tt.not(c))
 		}
+		ps.decided[c] = d.Taken
+		ps.decided[tt.not(c)] = !d.Taken
 		if ps.depth == len(ps.prefix) && !d.Checked {
 			i.mustSat("resumed alternative")
 		}
 		return d.Taken
+	}
+	if v, ok := ps.decided[c]; ok {
+		return v
 	}
 	if len(ps.decisions) >= i.limits.MaxDecisions {
 		i.abort(abortBound, "more than %d decisions on one path", i.limits.MaxDecisions)
@@ -178,18 +193,40 @@ func (i *interpreter) decide(c *term) bool {
 	s.pop()
 	switch r {
 	case "sat":
-		alt := make([]decision, len(ps.decisions), len(ps.decisions)+1)
-		copy(alt, ps.decisions)
-		alt = append(alt, decision{Taken: false, Checked: false})
-		ps.alts = append(ps.alts, alt)
-		ps.decisions = append(ps.decisions, decision{Taken: true, Checked: true})
-		ps.depth++
-		i.addPC(c)
+		// is the other side feasible too? (one query now is cheaper than a re-execution later)
+		nc := tt.not(c)
+		s.define(nc)
+		s.push()
+		s.send("(assert " + nc.ref() + ")")
+		r2 := s.checkSat()
+		s.pop()
+		switch r2 {
+		case "sat":
+			alt := make([]decision, len(ps.decisions), len(ps.decisions)+1)
+			copy(alt, ps.decisions)
+			alt = append(alt, decision{Taken: false, Checked: true})
+			ps.alts = append(ps.alts, alt)
+			ps.decisions = append(ps.decisions, decision{Taken: true, Checked: true})
+			ps.depth++
+			i.addPC(c)
+			ps.decided[c] = true
+			ps.decided[nc] = false
+		case "unsat":
+			// c is implied by the path condition: recorded only to keep re-execution aligned
+			ps.decisions = append(ps.decisions, decision{Taken: true, Checked: true, Implied: true})
+			ps.depth++
+			ps.decided[c] = true
+			ps.decided[nc] = false
+		default:
+			i.abort(abortSolver, "solver inconclusive on branch feasibility")
+		}
 		return true
 	case "unsat":
-		ps.decisions = append(ps.decisions, decision{Taken: false, Checked: true})
+		// ¬c is implied (the path condition is satisfiable by invariant)
+		ps.decisions = append(ps.decisions, decision{Taken: false, Checked: true, Implied: true})
 		ps.depth++
-		i.addPC(tt.not(c))
+		ps.decided[c] = false
+		ps.decided[tt.not(c)] = true
 		return false
 	}
 	i.abort(abortSolver, "solver inconclusive on branch feasibility")
